@@ -232,6 +232,13 @@ def check_loader(ctx, fi):
 
 
 def check_pickle(ctx):
+    import re
+    for nm in ('from_cache', 'to_cache'):
+        f_ = ctx.fn(f'{TRAJ}.{nm}')
+        memo = [norm_text(d) for d in f_.node.decorator_list if re.search(r'cache\b|lru', norm_text(d)) and 'classmethod' not in norm_text(d)]
+        ctx.ob('R4', f_, f'decorators of {nm}', not memo, 'reads / writes the file on every call' if not memo else
+               f'{nm} is memoised in-process (`@{memo[0]}`): after the cache file is rewritten or damaged the old object is still returned, a '
+               f'damaged cache is never replaced')
     fc = ctx.fn(f'{TRAJ}.from_cache')
     it = ctx.entry(fc.qualname)
     res = it.result
